@@ -382,9 +382,8 @@ inline constexpr void Conversion<Unit::AngularSpeed, Unit::AngularSpeed::Revolut
 }
 
 template <typename NumericType>
-inline const std::
-    map<Unit::AngularSpeed, std::function<void(NumericType* values, const std::size_t size)>>
-        MapOfConversionsFromStandard<Unit::AngularSpeed, NumericType>{
+inline constexpr auto MapOfConversionsFromStandard<Unit::AngularSpeed, NumericType>{
+  MakeConversionTable<Unit::AngularSpeed, NumericType>({
           {Unit::AngularSpeed::RadianPerSecond,
            Conversions<Unit::AngularSpeed, Unit::AngularSpeed::RadianPerSecond>::
                FromStandard<NumericType>},
@@ -430,12 +429,12 @@ inline const std::
           {Unit::AngularSpeed::RevolutionPerHour,
            Conversions<Unit::AngularSpeed, Unit::AngularSpeed::RevolutionPerHour>::
                FromStandard<NumericType>},
+})
 };
 
 template <typename NumericType>
-inline const std::map<Unit::AngularSpeed,
-                      std::function<void(NumericType* const values, const std::size_t size)>>
-    MapOfConversionsToStandard<Unit::AngularSpeed, NumericType>{
+inline constexpr auto MapOfConversionsToStandard<Unit::AngularSpeed, NumericType>{
+  MakeConversionTable<Unit::AngularSpeed, NumericType>({
       {Unit::AngularSpeed::RadianPerSecond,
        Conversions<Unit::AngularSpeed, Unit::AngularSpeed::RadianPerSecond>::
            ToStandard<NumericType>                          },
@@ -479,6 +478,7 @@ inline const std::map<Unit::AngularSpeed,
       {Unit::AngularSpeed::RevolutionPerHour,
        Conversions<Unit::AngularSpeed, Unit::AngularSpeed::RevolutionPerHour>::
            ToStandard<NumericType>                          },
+})
 };
 
 }  // namespace Internal
